@@ -330,9 +330,11 @@ class Gen:
                 v = self.char_out(o)
                 c = ["ab", "xyz", "10"] + ([v] * 6 if v is not None else [])
                 return rng.choice(c)
+            if where != "cfg" and rng.random() < 0.04:
+                return ""                      # the empty string passes the length check; its "character" is NUL
             return self.char_in(o)
         # strings
-        c = ["file1", "out.txt", "x", "a=b", "www.example.org", "7", "hi!", "+plus"]
+        c = ["file1", "out.txt", "x", "a=b", "www.example.org", "7", "hi!", "+plus", "v" * rng.choice([1, 3, 20, 126, 127, 128, 129, 300])]
         if where == "cmd":
             c += ["-dash", "--dd", "-", "two words", ""]
         if where == "env":
@@ -446,6 +448,11 @@ class Gen:
             if i:
                 txt += " " if w.startswith('"') else sep      # a quoted word must follow exactly one blank
             txt += w
+        r = self.rng.random()
+        if r < 0.1:
+            txt += self.rng.choice([" ", "  ", "\n", " \t"])
+        elif r < 0.15:
+            txt = " " + txt
         return txt
 
     # ---------------------------------------------------------------- environment, config file
@@ -484,8 +491,8 @@ class Gen:
             if o["type"] == NONE:
                 q = rng.random()
                 line = ind + nm + (rng.choice(["  # comment", " #c", "\t"]) if q < 0.2 else "")
-                if q > 0.97:
-                    line = ind + nm + " extra stuff"           # trailing garbage
+                if q > 0.95:
+                    line = ind + nm + rng.choice([" extra stuff", " ;c", " 1", " on #c", " //"])   # argument to a flag / trailing garbage
             else:
                 v = self.value(o, "cfg")
                 q = rng.random()
@@ -498,7 +505,7 @@ class Gen:
                     line = ind + nm + " val"
                 else:
                     sep = rng.choice([" ", " ", "  ", "\t", " \t "])
-                    line = ind + nm + sep + v + rng.choice(["", "", " # comment", " trailing"] if q < 0.3 else [""])
+                    line = ind + nm + sep + v + rng.choice(["", "", " # comment", " trailing", " ;c", " //c", " -x", " =", "\t#", " #"] if q < 0.3 else [""])
             lines.append(line)
         txt = "\n".join(lines)
         if lines and rng.random() < 0.85:
@@ -647,9 +654,19 @@ class C14(Prop):
         self._stats = g.stats
         return out
 
+    _realtok = re.compile(r"/x(-?\d+)e(-?\d+)(?=;|$)")
+
     def canonical(self, line):
         if line.startswith("fault") or line.startswith("atexit"):
             return "fault"
+        if line.startswith("ok argn="):
+            # GetReal: the harness prints 15 significant digits of the double, the model the exact decimal; compare as doubles
+            def norm(m):
+                try:
+                    return "/x%.12e" % float(m.group(1) + "e" + m.group(2))
+                except (ValueError, OverflowError):
+                    return m.group(0)
+            return self._realtok.sub(norm, line)
         return line
 
     # ------------------------------------------------------------------ monitors (on implementation output only)
@@ -721,7 +738,7 @@ class C14(Prop):
                     return "option %d: real option holds %r" % (i, s)
                 t = typed[1:]
                 y = 0.0 if t == "0" else float(t)
-                if not (x == y or abs(x - y) <= 1e-5 * max(abs(x), abs(y))):
+                if not (x == y or abs(x - y) <= 1e-12 * max(abs(x), abs(y))):
                     return "option %d: GetReal %s for value %r" % (i, typed, s)
         return None
 
